@@ -15,7 +15,9 @@ DCLS = [None, '', 'article', 'book', 'report', 'scrartcl', 'scrbook', 'scrreprt'
 DEFS = [None, None, '\\newcommand{\\zz}[1]{(#1)}', '\\newcommand{\\zzv}{\\verb|abcdefgh|}\\newcommand{\\zzw}{\\begin{verbatim}abc def\\end{verbatim}}',
         '\\usepackage[german]{babel}\n',
         '\\newcommand{\\zzo}[2][d]{#1:#2}\n\\def\\zzd#1{<#1>}\n',
-        '\\newtheorem{zzthm}{Zzthm}\n\\newcommand{\\zz}{ZZ\\zzo{a}}\n\\newcommand{\\zzo}[1]{[#1]}']
+        '\\newtheorem{zzthm}{Zzthm}\n\\newcommand{\\zz}{ZZ\\zzo{a}}\n\\newcommand{\\zzo}[1]{[#1]}',
+        # visible and detached text in the definitions: all of it is dropped, nothing may come back with foreign positions
+        '% ' + 'x' * 200 + '\nSome text \\footnote{foot text in the definitions}\n\\begin{figure}\\caption{cap text}\\end{figure}\n\\newcommand{\\zz}[1]{(#1)}\n']
 EXTR = [None, None, None, 'footnote,section', 'zz', 'caption,footnote', 'foreignlanguage', 'zzo,cite', 'LaTeX,par,TeX', 'item,ss,hfill,xspace', 'textbackslash,newline,qedhere']
 REPL = [None, None, ['a b & c\n'], ['Word & W W W\n', 'a &\n'], ['LATEXXXERROR & x\n']]
 
@@ -24,7 +26,7 @@ DEF_FRAGMENTS = [
     '\\newcommand{\\zzd}{\\zza{q}}', '\\newcommand{\\zze}[2]{#2#1}', '\\newtheorem{zzthm}{Zzthm}',
     '\\newcommand*{\\zzf}[3][]{#3#1}', '\\def\\zzg{G}', '\\renewcommand{\\textbf}[1]{#1}',
     '\\newcommand{\\zzh}[1]{\\footnote{#1}}', '\\def\\zzi[#1]{#1}',
-    '\\footnote{a \\LTinput{zz-lang.tex}}', '\\LTinput{zz-lang.tex}', '\\[a &\\text{b \\LTinput{zz-lang.tex}} & c\\]', '\\caption{\\LTinput{zz-lang.tex}}',
+    '\\footnote{a \\LTinput{zz-lang.tex}}', '\\LTinput{zz-lang.tex}', '\\[a &\\text{b \\LTinput{zz-lang.tex}} & c\\]', '\\caption{\\LTinput{zz-lang.tex}}', '\\LTinput{zz-foot.tex}', '\\LTinput{zz-foot.tex}',
     '\\newcommand{\\zzs}{   \n  }', '\\newcommand{\\zzs}{a \n \n  b}', '\\newcommand{\\zzv}{\\verb|abcdefgh|}', '\\newcommand{\\zzw}{\\begin{verbatim}abc def\\end{verbatim}}',
     '\\newacronym{a}{b}{\u00df}', '\\newglossaryentry{g}{name=n,description={\ufb01x}}', '\\newacronym{a}{b}{\u0390}', '\\newglossaryentry{g}{description={\ufb03}}', '\\newacronym{a}{b}{\u0390 x}',
 ]
